@@ -68,7 +68,11 @@ class _BioSeqStr():
         return self.__parent.data.encode(encoding, errors)
 
     def endswith(self, suffix, start=0, end=sys.maxsize):
-        return self.__parent.data.endswith(str(suffix), start, end)
+        if isinstance(suffix, tuple):
+            suffix = tuple(str(s) for s in suffix)
+        else:
+            suffix = str(suffix)
+        return self.__parent.data.endswith(suffix, start, end)
 
     def find(self, sub, start=0, end=sys.maxsize):
         return self.__parent.data.find(str(sub), start, end)
@@ -141,7 +145,11 @@ class _BioSeqStr():
         return self.__parent.data.splitlines(keepends)
 
     def startswith(self, prefix, start=0, end=sys.maxsize):
-        return self.__parent.data.startswith(str(prefix), start, end)
+        if isinstance(prefix, tuple):
+            prefix = tuple(str(p) for p in prefix)
+        else:
+            prefix = str(prefix)
+        return self.__parent.data.startswith(prefix, start, end)
 
     def strip(self, chars=None):
         if chars is not None:
